@@ -269,6 +269,8 @@ def emit_fn(card, repo, out, info, twin=False, assumed_here=False):
     fid = card.id
     if card.mode == 'assumed' or assumed_here:
         out.add('#[verifier::external_body]', {'fn': fid, 'part': 'attr'})
+    if not twin and 'nospinoff' not in card.opts:
+        out.add('#[verifier::spinoff_prover]', {'fn': fid, 'part': 'attr'})
     if 'nodecreases' in card.opts:
         out.add('#[verifier::exec_allows_no_decreases_clause]', {'fn': fid, 'part': 'attr'})
     if card.opts.get('rlimit') and not twin:
